@@ -264,6 +264,20 @@ func runC17(seed uint64, tier, dir, replay string) error {
 		if rng.Bool() {
 			nm = strings.ToLower(name)
 		}
+		// boundary window widths (word sizes and their neighbours) at offset 0 and at the top of the field
+		for _, w := range []int{1, 7, 8, 9, 15, 16, 17, 31, 32, 33, 63, 64, 65, 127, 128, bits - 1, bits} {
+			if w < 1 || w > bits {
+				continue
+			}
+			for _, s := range []int{0, bits - w} {
+				v := randVal(w)
+				if rng.Intn(3) == 0 {
+					v.Lsh(big.NewInt(1), uint(w))
+					v.Sub(v, big.NewInt(1)) // all ones
+				}
+				emit("window2-boundary", nm, dataKindFor(v), v, []int64{int64(s), int64(w)}, rng.Intn(4), -1)
+			}
+		}
 		for k := 0; k < rounds; k++ {
 			v := randVal(1 + rng.Intn(bits))
 			emit("exact", nm, dataKindFor(v), v, nil, 0, -1)
